@@ -379,6 +379,21 @@ func runTile(s tst, W, H, shrink, border int) {
 	} else {
 		filled := orig.TextStyling != nil && orig.TextStyling.TextFont != nil && orig.TextStyling.TitleFont != nil && orig.Scale != nil
 		kept := proto.Equal(orig, want)
+		// everything that is read from the first image is read NOW: the image belongs to the caller, who then
+		// draws on it - a later rendering must not show that (seed C18-16: a "last tile" memo handing out an
+		// image that shares its pixels with the one returned before)
+		var rgb Sx = Sym("skip")
+		if W*H <= 1024 {
+			rgb = append([]byte{}, r1.img.GetImgSliceRGB()...)
+		}
+		swT, sw1, sw2, lh1, swE := r1.img.StrWidth(s.ti), r1.img.StrWidth(s.l1), r1.img.StrWidth(s.l2), int(r1.img.LineHeight()), -r1.img.StrWidth("")
+		func() {
+			defer func() { recover() }()
+			r1.img.InvertPixels(false)
+			r1.img.SetBoundingBox(0, 0, W, H)
+			r1.img.FillRect(0, 0, W, H/2+1, true)
+			r1.img.DrawFastHLine(0, H-1, W, true)
+		}()
 		r2 := render(orig, W, H, shrink, border) // same object again (now with filled sub-messages)
 		// whatever the library put into the caller's object belongs to the caller, who may write to it
 		// (seed C18-13: absent sub-messages filled with package-level stand-ins instead of fresh
@@ -404,12 +419,27 @@ func runTile(s tst, W, H, shrink, border int) {
 			}
 		}
 		r3 := render(cp, W, H, shrink, border) // deep copy of the original argument
-		var rgb Sx = Sym("skip")
-		if W*H <= 1024 {
-			rgb = append([]byte{}, r1.img.GetImgSliceRGB()...)
-		}
-		obsN = L(r1.w, r1.h, r1.buf, r1.pixc, r1.bckg, sameSym(sameShot(r1, r2)), sameSym(sameShot(r1, r3)), filled, kept, rgb,
-			r1.img.StrWidth(s.ti), r1.img.StrWidth(s.l1), r1.img.StrWidth(s.l2), int(r1.img.LineHeight()), -r1.img.StrWidth(""))
+		// the application edits ITS object in place and renders it again at the same geometry, nothing else in
+		// between; the reference is a fresh deep copy rendered after a rendering at another geometry (so that
+		// no "same as last time" shortcut can serve both)
+		same3 := sameShot(r1, r3)
+		func() {
+			defer func() { recover() }()
+			ed := proto.Clone(cp).(*rwp.HWCText)
+			rl.WriteDisplayTileNew(ed, W, H, shrink, border)
+			ed.Inverted = !ed.Inverted
+			ed.IntegerValue ^= 5
+			ed.Title += "!"
+			r4 := render(ed, W, H, shrink, border)
+			ref := proto.Clone(ed).(*rwp.HWCText)
+			render(proto.Clone(ed).(*rwp.HWCText), W+8, H+1, shrink, border)
+			r5 := render(ref, W, H, shrink, border)
+			if !sameShot(r4, r5) {
+				same3 = false
+			}
+		}()
+		obsN = L(r1.w, r1.h, r1.buf, r1.pixc, r1.bckg, sameSym(sameShot(r1, r2)), sameSym(same3), filled, kept, rgb,
+			swT, sw1, sw2, lh1, swE)
 		stat("outcome", "ok")
 	}
 	ri := render(s.proto(true), W, H, shrink, border)
